@@ -175,12 +175,25 @@ func genWKT(r *rand.Rand, m protoreflect.Message, o *genOpts) bool {
 	case "google.protobuf.Any":
 		return true // left empty: arbitrary type URLs are not resolvable
 	case "google.protobuf.Value":
+		if o.noMaps {
+			genValue(r, m, 0) // scalars only: a struct_value holds a map
+			if m.Has(f.ByName("list_value")) || m.Has(f.ByName("struct_value")) {
+				m.Set(f.ByName("bool_value"), protoreflect.ValueOfBool(true))
+			}
+			return true
+		}
 		genValue(r, m, 2)
 		return true
 	case "google.protobuf.Struct":
+		if o.noMaps {
+			return true
+		}
 		genStruct(r, m, 2)
 		return true
 	case "google.protobuf.ListValue":
+		if o.noMaps {
+			return true
+		}
 		l := m.Mutable(f.ByName("values")).List()
 		for i, n := 0, r.IntN(3); i < n; i++ {
 			e := l.NewElement()
